@@ -24,7 +24,8 @@ THEOREMS = [P + n for n in (
     'maskVec_render', 'reindexVec_render', 'reindexVec_render_perm', 'scatterVec_render',
     'selSubset_spec', 'selSubsample_count', 'argsortStable_perm', 'selSortList_perm',
     'mk2d_wf', 'init_inv', 'step_inv', 'reachable_inv', 'reachable_entry', 'reachable_rdesc_partial',
-    'tracked_keys_kept', 'inplace_frame',
+    'tracked_keys_kept', 'tracked_keys_merge', 'mem_commonKeys_iff', 'mergedRDesc_total',
+    'fpVectorLen_triangular', 'scatterVec_length', 'inplace_frame',
     'toDf_rows', 'concat_aligns',
 )]
 RULE = ('one PRNG; a case is 1-3 initial RDMs objects (1-4 RDMs x 1-6 conditions, unique integer '
@@ -34,7 +35,7 @@ RULE = ('one PRNG; a case is 1-3 initial RDMs objects (1-4 RDMs x 1-6 conditions
         'documented rejections); the whole store is compared after every step.  distinct = '
         'distinct (initial shapes, operation-name sequence, argument digest); non-trivial = at '
         'least one operation changed or created an object')
-OPS = ['getitem', 'iter', 'subset', 'subsample', 'subset_pattern', 'subsample_pattern', 'reorder',
+OPS = ['getitem', 'iter', 'len', 'reversed', 'subset', 'subsample', 'subset_pattern', 'subsample_pattern', 'reorder',
        'sort_alpha', 'sort_list', 'append', 'concat', 'copy', 'dict', 'from_partials', 'permute',
        'inverse_permute', 'matrices', 'vectors', 'to_df']
 BRANCHES = ['op:' + o for o in OPS] + [
@@ -44,7 +45,10 @@ BRANCHES = ['op:' + o for o in OPS] + [
     'value:zero', 'value:tie', 'value:negative', 'value:inf', 'value:fraction',
     'input:fortran', 'input:strided', 'input:float32', 'input:int',
     'readout:derived', 'to_df:derived', 'dict:derived', 'matrices:derived', 'vectors:derived',
-    'to_df:after_subset_pattern', 'to_df:after_reorder', 'readout:after_subsample_pattern']
+    'to_df:after_subset_pattern', 'to_df:after_reorder', 'readout:after_subsample_pattern',
+    'concat:explicit_target', 'concat:explicit_target_realign', 'permute:random', 'sort:unknown_method',
+    'dict:h5like', 'init:1d', 'init:3d', 'init:scalar_desc', 'init:no_pdesc', 'init:rejected_ndim',
+    'init:rejected_desc_len']
 ASSUMPTIONS = [
     'values are small integers, exactly representable in float64 and Rat',
     'admissible arguments: selection values of the descriptor\'s own kind; reorder/permute orders are '
@@ -53,8 +57,8 @@ ASSUMPTIONS = [
 TRUSTED_EXTRA = ['numpy fancy indexing, scipy.spatial.distance.squareform, pandas.DataFrame construction '
                  '(exercised by the correspondence, not modelled separately)']
 
-READ_ONLY = ('iter', 'matrices', 'vectors', 'to_df')
-IN_PLACE = ('reorder', 'sort_alpha', 'sort_list', 'append')
+READ_ONLY = ('iter', 'matrices', 'vectors', 'to_df', 'len', 'reversed')
+IN_PLACE = ('reorder', 'sort_alpha', 'sort_list', 'append', 'sort_unknown')
 
 # ------------------------------------------------------------------ real code
 
@@ -153,10 +157,32 @@ def make_real(o):
         big = np.zeros((vecs.shape[0] * 2, vecs.shape[1] * 2 + 1), dtype=vecs.dtype)
         big[::2, 1::2] = vecs
         vecs = big[::2, 1::2]
+    form = o.get('form', '2d')
+    if form == '1d':                      # a single RDM given as a 1-D vector
+        vecs = vecs[0]
+    elif form == '3d':                    # square matrices
+        n = ref.n_from_len(vecs.shape[1])
+        mats = np.zeros((vecs.shape[0], n, n), dtype=vecs.dtype)
+        ix = np.triu_indices(n, 1)
+        for q in range(vecs.shape[0]):
+            mats[q][ix] = vecs[q]
+            mats[q] = mats[q] + mats[q].T
+        vecs = mats
+    elif form == '4d':                    # not an RDM stack: the constructor must raise
+        vecs = vecs.reshape(vecs.shape + (1, 1))
+
+    def dcol(k, v, count):
+        if o.get('scalar_desc') and count == 1:
+            return v[0]                   # one value instead of a one-element column
+        if k == o.get('bad_len'):
+            return col(k, list(v) + [v[-1]])
+        return col(k, v)
+    nr, nc = len(vals), ref.n_from_len(len(vals[0]))
+    pd = {k: dcol(k, v, nc) for k, v in o.get('pdesc', [])}
     return R.RDMs(vecs,
                   descriptors={k: (np.array(v) if isinstance(v, list) else v) for k, v in o.get('odesc', [])},
-                  rdm_descriptors={k: col(k, v) for k, v in o.get('rdesc', [])},
-                  pattern_descriptors={k: col(k, v) for k, v in o.get('pdesc', [])})
+                  rdm_descriptors={k: dcol(k, v, nr) for k, v in o.get('rdesc', [])},
+                  pattern_descriptors=(pd if (pd or not o.get('no_pdesc_arg')) else None))
 
 
 def _value_arg(op):
@@ -179,7 +205,8 @@ def apply_real(store, op):
     name = op['op']
     if name == 'concat':
         objs = [store[i] for i in op['srcs']]
-        return 'new', (R.concat(*objs) if op.get('varargs') else R.concat(objs))
+        kw = {'target_pdesc': op['target']} if op.get('target') is not None else {}
+        return 'new', (R.concat(*objs, **kw) if op.get('varargs') else R.concat(objs, **kw))
     if name == 'from_partials':
         objs = [store[i] for i in op['srcs']]
         allp = op.get('all')
@@ -212,9 +239,31 @@ def apply_real(store, op):
     if name == 'copy':
         return 'new', r.copy()
     if name == 'dict':
-        return 'new', R.rdms_from_dict(r.to_dict())
+        d = r.to_dict()
+        if op.get('h5like'):
+            # what the hdf5 reader hands to rdms_from_dict: list descriptors as {'0': v0, '1': v1, …}
+            d = dict(d)
+            for key in ('rdm_descriptors', 'pattern_descriptors'):
+                d[key] = {k: ({str(i): x for i, x in enumerate(v)} if isinstance(v, list) else v)
+                          for k, v in d[key].items()}
+        return 'new', R.rdms_from_dict(d)
     if name == 'permute':
+        if op.get('p_none'):
+            # p=None: the library draws the permutation; the draw is injected
+            orig = np.random.permutation
+            np.random.permutation = lambda n: np.array(op['p'], dtype=int)
+            try:
+                return 'new', R.permute_rdms(r)
+            finally:
+                np.random.permutation = orig
         return 'new', R.permute_rdms(r, np.array(op['p'], dtype=int))
+    if name == 'sort_unknown':
+        r.sort_by(**{op['by']: op['method']})
+        return 'inplace', None
+    if name == 'len':
+        return 'out', len(r)
+    if name == 'reversed':
+        return 'out', [dump_real(x) for x in reversed(r)]
     if name == 'inverse_permute':
         return 'new', R.inverse_permute_rdms(r)
     if name == 'iter':
@@ -308,7 +357,8 @@ def _leaf_impl(case):
 def run_impl(case):
     store, exc0 = _make_store(case)
     if store is None:
-        return {'init': f'constructor raised {exc0}', 'steps': [], 'leaf': _leaf_impl(case),
+        return {'init': f'constructor raised {exc0}', 'steps': [],
+                'leaf': [] if any(o.get('form') == '4d' for o in case['objs']) else _leaf_impl(case),
                 'cm': concat_mutates()}
     steps = []
     for op in case['ops']:
@@ -323,12 +373,24 @@ def run_impl(case):
 # ------------------------------------------------------------------ model side
 
 
-MODEL_KEYS = ('op', 'src', 'sel', 'by', 'vals', 'ord', 'reindex', 'other', 'srcs', 'all', 'desc', 'p')
+MODEL_KEYS = ('op', 'src', 'sel', 'by', 'vals', 'ord', 'reindex', 'other', 'srcs', 'all', 'desc', 'p', 'target')
 
 
 def model_requests(case):
     ops = [{k: v for k, v in op.items() if k in MODEL_KEYS} for op in case['ops']]
-    objs = [{k: o.get(k, []) for k in ('vecs', 'odesc', 'rdesc', 'pdesc')} for o in case['objs']]
+    if any(o.get('form') == '4d' for o in case['objs']):
+        return []          # not an RDM stack at all: nothing the model could be asked
+    objs = []
+    for o in case['objs']:
+        m = {k: copy.deepcopy(o.get(k, [])) for k in ('vecs', 'odesc', 'rdesc', 'pdesc')}
+        if o.get('form') == '3d':
+            m['n3d'] = ref.n_from_len(len(o['vecs'][0]))
+        if o.get('bad_len'):
+            for key in ('rdesc', 'pdesc'):
+                for kv in m[key]:
+                    if kv[0] == o['bad_len']:
+                        kv[1] = kv[1] + [kv[1][-1]]
+        objs.append(m)
     reqs = [{'op': 'c10.session', 'objs': objs, 'ops': ops, 'cm': concat_mutates()}]
     reqs += [{'op': 'c10.nfrom', 'len': ln} for ln in case.get('lens', [])]
     return reqs
@@ -360,8 +422,12 @@ def _untag_obj(o, tm):
 
 
 def model_result(case, answers):
+    if not answers:
+        return {'init': 'constructor rejects', 'steps': [], 'leaf': []}
     a = answers[0]
     if isinstance(a, dict) and 'model_error' in a:
+        if 'rejected by the constructor' in str(a['model_error']):
+            return {'init': 'constructor rejects', 'steps': [], 'leaf': answers[1:]}
         return a
     tm = tag_map(case)
     a = {'init': [_untag_obj(x, tm) for x in a['init']],
@@ -370,7 +436,7 @@ def model_result(case, answers):
     for op, st in zip(case['ops'], a['steps']):
         if st.get('out') is None:
             continue
-        if op['op'] == 'iter':
+        if op['op'] in ('iter', 'reversed'):
             st['out'] = [_untag_obj(x, tm) for x in st['out']]
         elif op['op'] in ('matrices', 'vectors'):
             st['out'] = _untag(st['out'], tm)
@@ -380,7 +446,7 @@ def model_result(case, answers):
     for op, st in zip(case['ops'], a['steps']):
         if op['op'] in READ_ONLY:
             out = st.get('out')
-            if out is not None and op['op'] == 'iter':
+            if out is not None and op['op'] in ('iter', 'reversed'):
                 out = [_norm_obj(x) for x in out]
             if out is not None and op['op'] == 'to_df':
                 out = _sorted_rows(out)
@@ -415,6 +481,11 @@ def _diff(a, b, path=''):
 def compare(case, impl, model):
     if 'model_error' in model:
         return f'model error {model}'
+    if isinstance(impl['init'], str) or isinstance(model['init'], str):
+        if isinstance(impl['init'], str) and isinstance(model['init'], str):
+            return None
+        return f"initial objects: impl {impl['init'] if isinstance(impl['init'], str) else 'accepted'}, " \
+               f"model {model['init'] if isinstance(model['init'], str) else 'accepts'}"
     d = _diff(impl['init'], model['init'], 'init')
     if d:
         return 'impl vs model ' + d
@@ -540,9 +611,28 @@ def oracle(case):
                         'features': {'fail_op': 'leaf', 'fail_kind': 'wrong_result', 'fail_exc': None,
                                      'fail_role': 'leaf'}}
     store, exc0 = _make_store(case)
+    if any(o.get('form') == '4d' or o.get('bad_len') for o in case['objs']):
+        if store is None:
+            return None
+        return {'what': 'constructor accepted a malformed stack / descriptor of the wrong length', 'detail': '',
+                'step': -1, 'features': {'fail_op': 'init', 'fail_kind': 'wrong_result', 'fail_exc': None,
+                                         'fail_role': 'init'}}
     if store is None:
         return {'what': 'constructor raised on a well-formed initial object', 'detail': exc0, 'step': -1,
                 'features': {'fail_op': 'init', 'fail_kind': 'raised', 'fail_exc': exc0, 'fail_role': 'init'}}
+    for i, (r, spec) in enumerate(zip(store, case['objs'])):
+        # the constructor must store exactly what it was given (whatever the array form)
+        o, prob = to_ref(r)
+        if not prob:
+            want = ref.new_obj([[_val(_num(x)) for x in row] for row in obj_vals(spec)],
+                               spec.get('odesc', []), spec.get('rdesc', []), spec.get('pdesc', []))
+            d = ref_eq(o, want)
+            if d:
+                return {'what': 'constructor: the object differs from the input it was built from',
+                        'detail': f'object {i} ({spec.get("form", "2d")} input, {spec.get("dtype", "float64")}, '
+                                  f'{spec.get("layout", "C")}): {d}', 'step': -1,
+                        'features': {'fail_op': 'init', 'fail_kind': 'wrong_result', 'fail_exc': None,
+                                     'fail_role': 'init'}}
     for i, r in enumerate(store):
         o, prob = to_ref(r)
         if prob:
@@ -617,10 +707,13 @@ def oracle(case):
 
 def check_output(name, o, out):
     n, nr = o['n'], len(o['mats'])
-    if name == 'iter':
+    if name == 'len':
+        return None if out == nr else f'len() = {out} for {nr} RDMs'
+    if name in ('iter', 'reversed'):
         if len(out) != nr:
             return f'{len(out)} items for {nr} RDMs'
-        for q, item in enumerate(out):
+        for q0, item in enumerate(out):
+            q = q0 if name == 'iter' else nr - 1 - q0
             want = ref.take_rows(o, [q])
             got_vec = item['vecs'][0]
             k = 0
@@ -708,6 +801,7 @@ def gen_obj(rng, tags, n=None, nr=None, conds=None):
                 seen.append(v)
             vrow.append(v)
         vals.append(vrow)
+    conds_given = conds is not None
     if conds is None:
         conds = rng.sample(POOL, n)
         if n >= 2 and rng.random() < 0.2:
@@ -728,8 +822,20 @@ def gen_obj(rng, tags, n=None, nr=None, conds=None):
     if rng.random() < 0.4:
         odesc.append(['run', rng.randint(1, 2)])
     arr = [k for k, _ in pdesc + rdesc if rng.random() < 0.5]
-    return {'vecs': vecs, 'vals': vals, 'dtype': dtype, 'layout': layout,
-            'odesc': odesc, 'rdesc': rdesc, 'pdesc': pdesc, 'arr': arr}
+    o = {'vecs': vecs, 'vals': vals, 'dtype': dtype, 'layout': layout,
+         'odesc': odesc, 'rdesc': rdesc, 'pdesc': pdesc, 'arr': arr}
+    # how the constructor is called: 1-D vector, square matrices, scalar descriptors, no pattern descriptors
+    if nr == 1 and rng.random() < 0.3:
+        o['form'] = '1d'
+    elif rng.random() < 0.15:
+        o['form'] = '3d'
+    if (nr == 1 or n == 1) and rng.random() < 0.4:
+        o['scalar_desc'] = True
+    if conds_given is False and rng.random() < 0.08:
+        o['pdesc'] = []
+        o['no_pdesc_arg'] = True
+        o['arr'] = [k for k in arr if k in ('subj', 'sess')]
+    return o
 
 
 def _ref_of(o):
@@ -760,7 +866,9 @@ def gen_op(rng, sim, weights):
         if rng.random() < 0.5:
             return {'op': name, 'src': i, 'sel': [rng.randrange(nr)], 'int': rng.random() < 0.7}
         return {'op': name, 'src': i, 'sel': [rng.randrange(nr) for _ in range(rng.randint(1, 3))]}
-    if name in READ_ONLY or name in ('copy', 'dict'):
+    if name == 'dict':
+        return {'op': name, 'src': i, 'h5like': rng.random() < 0.4}
+    if name in READ_ONLY or name == 'copy':
         return {'op': name, 'src': i}
     if name in ('subset', 'subsample'):
         by = rng.choice(rkeys)
@@ -790,7 +898,10 @@ def gen_op(rng, sim, weights):
         j = rng.choice(cands) if cands and rng.random() < 0.93 else rng.randrange(len(sim))
         return {'op': name, 'src': i, 'other': j}
     if name == 'concat':
-        t = ref.concat_target(o)
+        target = None
+        if rng.random() < 0.35:
+            target = rng.choice(pkeys)          # explicit target_pdesc (may be 'index', may have repeats)
+        t = target if target is not None else ref.concat_target(o)
         cands, moved = [], []
         for j, r in enumerate(sim):
             if r['n'] != n:
@@ -808,7 +919,10 @@ def gen_op(rng, sim, weights):
         k = rng.choice([0, 1, 1, 2])
         srcs = [i] + [rng.choice(moved if moved and rng.random() < 0.6 else cands)
                       for _ in range(k)] if cands else [i]
-        return {'op': name, 'srcs': srcs, 'varargs': rng.random() < 0.5}
+        op = {'op': name, 'srcs': srcs, 'varargs': rng.random() < 0.5}
+        if target is not None:
+            op['target'] = target
+        return op
     if name == 'from_partials':
         ds = [k for k, v in o['pdesc'] if not ref.has_dup(v) and k != 'index']
         if not ds:
@@ -842,7 +956,7 @@ def gen_op(rng, sim, weights):
     if name == 'permute':
         p = list(range(n))
         rng.shuffle(p)
-        return {'op': name, 'src': i, 'p': p}
+        return {'op': name, 'src': i, 'p': p, 'p_none': rng.random() < 0.3}
     if name == 'inverse_permute':
         cands = [j for j, r in enumerate(sim) if isinstance(r['odesc'].get('p_inv'), list)]
         if not cands:
@@ -853,8 +967,9 @@ def gen_op(rng, sim, weights):
 
 # operations whose inadmissible arguments the generator may still draw: the library raises
 RAISES_WHEN_INADMISSIBLE = ('subset', 'subsample', 'subset_pattern', 'subsample_pattern', 'sort_list',
-                            'append', 'getitem')
-REJECTIONS = ('getitem_oob', 'missing_key', 'append_shape', 'sort_list_missing')
+                            'append', 'getitem', 'sort_unknown')
+REJECTIONS = ('getitem_oob', 'missing_key', 'append_shape', 'sort_list_missing', 'sort_unknown',
+              'concat_bad_target')
 
 
 def gen_rejection(rng, sim):
@@ -866,6 +981,10 @@ def gen_rejection(rng, sim):
     if kind == 'missing_key':
         return {'op': rng.choice(['subset', 'subset_pattern', 'subsample', 'subsample_pattern']),
                 'src': i, 'by': 'nokey', 'vals': ['a']}
+    if kind == 'sort_unknown':
+        return {'op': 'sort_unknown', 'src': i, 'by': o['pdesc'][0][0], 'method': rng.choice(['beta', 3])}
+    if kind == 'concat_bad_target':
+        return {'op': 'concat', 'srcs': [i, i], 'target': 'nokey'}
     if kind == 'append_shape':
         cands = [j for j, r in enumerate(sim) if r['n'] != o['n']]
         if cands:
@@ -882,9 +1001,9 @@ def gen_case(rng, max_ops, weights=None, n_objs=None):
     for _ in range(k - 1):
         # siblings share the label universe of the first object so that concat / from_partials apply
         base = objs[0]
-        conds0 = base['pdesc'][[kk for kk, _ in base['pdesc']].index('conds')][1]
+        conds0 = dict(map(tuple, base['pdesc'])).get('conds')
         mode = rng.random()
-        if mode < 0.6 and not ref.has_dup(conds0):
+        if mode < 0.6 and conds0 is not None and not ref.has_dup(conds0):
             conds = list(conds0)
             rng.shuffle(conds)
             o = gen_obj(rng, tags, n=len(conds), conds=conds)
@@ -909,6 +1028,14 @@ def gen_case(rng, max_ops, weights=None, n_objs=None):
         else:
             o = gen_obj(rng, tags)
         objs.append(o)
+    if rng.random() < 0.015:
+        bad = rng.choice(objs)
+        if rng.random() < 0.5:
+            bad['form'] = '4d'
+        else:
+            bad['bad_len'] = rng.choice([kv[0] for kv in bad['rdesc'] + bad['pdesc']] or ['subj'])
+            bad.pop('scalar_desc', None)
+        return {'objs': objs, 'ops': [], 'lens': []}
     sim = [_ref_of(o) for o in objs]
     ops = []
     n_ops = rng.randint(1, max_ops)
@@ -933,9 +1060,10 @@ def gen_case(rng, max_ops, weights=None, n_objs=None):
         if target is not None and rng.random() < 0.6:
             # read the changed / new object out right away: long-form export, square and
             # vector form, dictionary round trip, iteration
-            kind = rng.choices(['to_df', 'matrices', 'vectors', 'dict', 'iter'],
-                               weights=[0.4, 0.15, 0.15, 0.15, 0.15])[0]
-            ops.append({'op': kind, 'src': target})
+            kind = rng.choices(['to_df', 'matrices', 'vectors', 'dict', 'iter', 'reversed', 'len'],
+                               weights=[0.38, 0.14, 0.14, 0.14, 0.1, 0.06, 0.04])[0]
+            ops.append({'op': kind, 'src': target, 'h5like': rng.random() < 0.4} if kind == 'dict'
+                       else {'op': kind, 'src': target})
             if kind == 'dict':
                 sim, _ = ref.apply(sim, {'op': 'dict', 'src': target})
         if len(sim) > 14:
@@ -972,6 +1100,19 @@ def fixed_cases():
         {'op': 'dict', 'src': 4}, {'op': 'to_df', 'src': 5},
         {'op': 'reorder', 'src': 3, 'ord': [4, 0, 3, 1, 2], 'as_array': True}, {'op': 'to_df', 'src': 3},
         {'op': 'sort_alpha', 'src': 3, 'by': 'conds', 'reindex': False}, {'op': 'iter', 'src': 3}]}
+    yield {'objs': [dict(a, form='4d')], 'ops': [], 'lens': []}
+    yield {'objs': [dict(b, bad_len='conds')], 'ops': [], 'lens': []}
+    single = {'vecs': [[51, 52, 53]], 'vals': [[0, 52, 0]], 'odesc': [], 'rdesc': [['subj', ['s9']]],
+              'pdesc': [], 'no_pdesc_arg': True, 'form': '1d', 'scalar_desc': True, 'arr': []}
+    yield {'objs': [a, b, single, dict(b, form='3d', layout='C')], 'lens': [55], 'ops': [
+        {'op': 'concat', 'srcs': [0, 1], 'target': 'conds'}, {'op': 'to_df', 'src': 4},
+        {'op': 'reorder', 'src': 1, 'ord': [2, 0, 3, 1]},
+        {'op': 'concat', 'srcs': [0, 1], 'target': 'index', 'varargs': True}, {'op': 'matrices', 'src': 5},
+        {'op': 'concat', 'srcs': [0, 1], 'target': 'nokey'},
+        {'op': 'permute', 'src': 2, 'p': [2, 0, 1], 'p_none': True}, {'op': 'to_df', 'src': 6},
+        {'op': 'sort_unknown', 'src': 0, 'by': 'conds', 'method': 'beta'},
+        {'op': 'dict', 'src': 6, 'h5like': True}, {'op': 'reversed', 'src': 5}, {'op': 'len', 'src': 5},
+        {'op': 'append', 'src': 3, 'other': 1}, {'op': 'vectors', 'src': 3}]}
     d = {'vecs': [[41, 42, 43, 44, 45, 46]], 'odesc': [['task', 't2'], ['note', 'x']],
          'rdesc': [['subj', ['s5']], ['extra', [7]]],
          'pdesc': [['conds', ['c10', 'b', 'ab', 'a']]], 'arr': ['extra']}
@@ -1076,7 +1217,15 @@ def features(case, impl):
     br = set()
     names = [op['op'] for op in case['ops']]
     for op in case['ops']:
-        br.add('op:' + op['op'])
+        br.add('op:' + ('sort_list' if op['op'] == 'sort_unknown' else op['op']))
+        if op['op'] == 'sort_unknown':
+            br.add('sort:unknown_method')
+        if op['op'] == 'concat' and op.get('target') is not None:
+            br.add('concat:explicit_target')
+        if op['op'] == 'permute' and op.get('p_none'):
+            br.add('permute:random')
+        if op['op'] == 'dict' and op.get('h5like'):
+            br.add('dict:h5like')
         if op.get('by_none') and op.get('by') == 'index':
             br.add('by_none')
         if op.get('scalar') and len(op.get('vals', [])) == 1:
@@ -1108,6 +1257,16 @@ def features(case, impl):
             made_by[n_store] = op['op']
             n_store += 1
     for o in case['objs']:
+        if o.get('form') in ('1d', '3d'):
+            br.add('init:' + o['form'])
+        if o.get('form') == '4d':
+            br.add('init:rejected_ndim')
+        if o.get('bad_len'):
+            br.add('init:rejected_desc_len')
+        if o.get('scalar_desc'):
+            br.add('init:scalar_desc')
+        if o.get('no_pdesc_arg'):
+            br.add('init:no_pdesc')
         flat = [x for v in obj_vals(o) for x in v if x is not None]
         nums = [x for x in flat if not isinstance(x, str)]
         if any(x == 0 for x in nums):
@@ -1149,6 +1308,8 @@ def features(case, impl):
                     continue
                 if op['op'] == 'concat' and maybe:
                     br.add('concat:realign')
+                    if op.get('target') is not None:
+                        br.add('concat:explicit_target_realign')
                 if op['op'] in ('concat', 'from_partials') and len(
                         {(tuple(sorted(sim[j]['rdesc'])), tuple(sorted(sim[j]['odesc']))) for j in op['srcs']}) > 1:
                     br.add('merge:heterogeneous_keys')
